@@ -4,7 +4,7 @@
   argument for zero gap-open.
 -/
 import Bio.Model.Align
-namespace Bio.Align
+namespace Bio.Align.Opt
 
 /-! ## Row lengths -/
 
@@ -264,6 +264,7 @@ section ZeroOpen
 variable (m : Mat) (loc : Bool) (a b : Bytes) (h0 : m GAP GAP = 0)
 include h0
 
+omit h0 in
 theorem step_mch_le (i j : Nat) (hi : i < a.length) (hj : j < b.length) :
     (cellAt (table m loc a b) i j).score + m a[i] b[j] ≤
       (cellAt (table m loc a b) (i + 1) (j + 1)).score := by
@@ -348,20 +349,20 @@ theorem path_le (m : Mat) (loc : Bool) (a b : Bytes) (h0 : m GAP GAP = 0) (i' j'
       · subst hjj; simp [seg, rescore_mch_nil_right] at h
       rw [seg_cons a i i' (by omega) hi', seg_cons b j j' (by omega) hj', rescore_mch_cons] at h
       simp only [Option.map_eq_some_iff, Prod.mk.injEq] at h
-      obtain ⟨⟨v', ra, rb⟩, hr, hv, hra, hrb⟩ := h
-      trace_state
-      subst hra hrb
+      obtain ⟨⟨v', ra, rb⟩, hr, hv, hrest⟩ := h
+      simp only [Prod.mk.injEq] at hv hrest
+      obtain ⟨rfl, rfl⟩ := hrest
       have := ih .mch (i + 1) (j + 1) v' (by omega) (by omega) hr
-      have := step_mch_le m loc a b h0 i j (by omega) (by omega)
+      have := step_mch_le m loc a b i j (by omega) (by omega)
       omega
     | del =>
       by_cases hii : i = i'
       · subst hii; simp [seg, rescore_del_nil] at h
       rw [seg_cons a i i' (by omega) hi', rescore_del_cons] at h
       simp only [Option.map_eq_some_iff, Prod.mk.injEq] at h
-      obtain ⟨⟨v', ra, rb⟩, hr, hv, hra, hrb⟩ := h
-      simp only at hv hra hrb
-      subst hra hrb
+      obtain ⟨⟨v', ra, rb⟩, hr, hv, hrest⟩ := h
+      simp only [Prod.mk.injEq] at hv hrest
+      obtain ⟨rfl, rfl⟩ := hrest
       have := ih .del (i + 1) j v' (by omega) (by omega) hr
       have := step_del_le m loc a b h0 i j (by omega) (by omega)
       simp only [h0, ite_self] at hv
@@ -371,9 +372,9 @@ theorem path_le (m : Mat) (loc : Bool) (a b : Bytes) (h0 : m GAP GAP = 0) (i' j'
       · subst hjj; simp [seg, rescore_ins_nil] at h
       rw [seg_cons b j j' (by omega) hj', rescore_ins_cons] at h
       simp only [Option.map_eq_some_iff, Prod.mk.injEq] at h
-      obtain ⟨⟨v', ra, rb⟩, hr, hv, hra, hrb⟩ := h
-      simp only at hv hra hrb
-      subst hra hrb
+      obtain ⟨⟨v', ra, rb⟩, hr, hv, hrest⟩ := h
+      simp only [Prod.mk.injEq] at hv hrest
+      obtain ⟨rfl, rfl⟩ := hrest
       have := ih .ins i (j + 1) v' (by omega) (by omega) hr
       have := step_ins_le m loc a b h0 i j (by omega) (by omega)
       simp only [h0, ite_self] at hv
@@ -390,4 +391,458 @@ theorem global_opt_zero (m : Mat) (a b : Bytes) (h0 : m GAP GAP = 0) (s : List S
   rw [cell_zero_zero] at this
   rw [globalT_score]; simpa using this
 
-end Bio.Align
+
+/-! ## `argmax` returns the maximum score of the table -/
+
+theorem argmaxRow_score (i : Nat) : ∀ (row : List Cell) (j0 : Nat) (best : Nat × Nat × Int),
+    (argmaxRow row i j0 best).2.2 =
+      row.foldl (fun acc c => if c.score > acc then c.score else acc) best.2.2 := by
+  intro row
+  induction row with
+  | nil => intro j0 best; rfl
+  | cons c cs ih =>
+    intro j0 best
+    have := ih (j0 + 1) (if c.score > best.2.2 then (i, j0, c.score) else best)
+    simp only [argmaxRow, List.foldl_cons] at this ⊢
+    rw [this]
+    congr 1
+    split <;> rfl
+
+theorem foldl_max_ge_init : ∀ (row : List Cell) (x : Int),
+    x ≤ row.foldl (fun acc c => if c.score > acc then c.score else acc) x := by
+  intro row
+  induction row with
+  | nil => intro x; exact Int.le_refl _
+  | cons c cs ih =>
+    intro x
+    simp only [List.foldl_cons]
+    refine Int.le_trans ?_ (ih _)
+    split <;> omega
+
+theorem foldl_max_ge_mem : ∀ (row : List Cell) (x : Int) (c : Cell), c ∈ row →
+    c.score ≤ row.foldl (fun acc c => if c.score > acc then c.score else acc) x := by
+  intro row
+  induction row with
+  | nil => intro x c h; simp at h
+  | cons d cs ih =>
+    intro x c h
+    simp only [List.foldl_cons]
+    rcases List.mem_cons.1 h with rfl | h
+    · refine Int.le_trans ?_ (foldl_max_ge_init cs _)
+      split <;> omega
+    · exact ih _ c h
+
+theorem argmax_score (t : List (List Cell)) :
+    (argmax t).2.2 = t.foldl (fun acc row =>
+      row.foldl (fun acc c => if c.score > acc then c.score else acc) acc) (cellAt t 0 0).score := by
+  unfold argmax
+  generalize (cellAt t 0 0).score = x0
+  have : ∀ (rows : List (List Cell)) (i0 : Nat) (best : Nat × Nat × Int),
+      (rows.foldl (fun (st : Nat × (Nat × Nat × Int)) row =>
+        (st.1 + 1, argmaxRow row st.1 0 st.2)) (i0, best)).2.2.2 =
+      rows.foldl (fun acc row =>
+        row.foldl (fun acc c => if c.score > acc then c.score else acc) acc) best.2.2 := by
+    intro rows
+    induction rows with
+    | nil => intro i0 best; rfl
+    | cons r rs ih =>
+      intro i0 best
+      simp only [List.foldl_cons]
+      rw [ih, argmaxRow_score]
+  exact this t 0 (0, 0, x0)
+
+theorem foldl2_max_ge_init : ∀ (rows : List (List Cell)) (x : Int),
+    x ≤ rows.foldl (fun acc row =>
+      row.foldl (fun acc c => if c.score > acc then c.score else acc) acc) x := by
+  intro rows
+  induction rows with
+  | nil => intro x; exact Int.le_refl _
+  | cons r rs ih =>
+    intro x
+    simp only [List.foldl_cons]
+    exact Int.le_trans (foldl_max_ge_init r x) (ih _)
+
+theorem foldl2_max_ge_mem : ∀ (rows : List (List Cell)) (x : Int) (row : List Cell) (c : Cell),
+    row ∈ rows → c ∈ row →
+    c.score ≤ rows.foldl (fun acc row =>
+      row.foldl (fun acc c => if c.score > acc then c.score else acc) acc) x := by
+  intro rows
+  induction rows with
+  | nil => intro x row c h; simp at h
+  | cons r rs ih =>
+    intro x row c h hc
+    simp only [List.foldl_cons]
+    rcases List.mem_cons.1 h with rfl | h
+    · exact Int.le_trans (foldl_max_ge_mem _ x c hc) (foldl2_max_ge_init rs _)
+    · exact ih _ row c h hc
+
+/-- Every in-range cell of the table is dominated by the `argmax` score. -/
+theorem argmax_ge_cell (m : Mat) (loc : Bool) (a b : Bytes) (i j : Nat) (hi : i ≤ a.length)
+    (hj : j ≤ b.length) :
+    (cellAt (table m loc a b) i j).score ≤ (argmax (table m loc a b)).2.2 := by
+  have hl := table_row_length m loc a b i hi
+  rw [argmax_score]
+  unfold rowAt at hl
+  cases hr : (table m loc a b)[i]? with
+  | none => simp [hr] at hl
+  | some row =>
+    simp only [hr, Option.getD_some] at hl
+    have hjr : j < row.length := by omega
+    have hc : cellAt (table m loc a b) i j = row[j] := by
+      simp [cellAt, hr, List.getElem?_eq_getElem hjr]
+    rw [hc]
+    exact foldl2_max_ge_mem _ _ row _ (List.mem_of_getElem? hr) (List.getElem_mem hjr)
+
+theorem localT_score (m : Mat) (a b : Bytes) :
+    (localT m a b).2.2.2 = (argmax (table m true a b)).2.2 := by
+  unfold localT
+  simp only
+  split
+  · rename_i h; simp at h; simp [h]
+  · rfl
+
+theorem local_score_nonneg (m : Mat) (a b : Bytes) : 0 ≤ (localT m a b).2.2.2 := by
+  rw [localT_score]
+  have := argmax_ge_cell m true a b 0 0 (Nat.zero_le _) (Nat.zero_le _)
+  rwa [cell_zero_zero] at this
+
+/-- Cells of the local table are non-negative. -/
+theorem local_cell_nonneg (m : Mat) (a b : Bytes) (i j : Nat) (hi : i ≤ a.length)
+    (hj : j ≤ b.length) : 0 ≤ (cellAt (table m true a b) i j).score := by
+  cases i with
+  | zero =>
+    cases j with
+    | zero => rw [cell_zero_zero]; exact Int.le_refl _
+    | succ j => rw [cell_zero_succ m true a b j (by omega)]; exact clamp_true_nonneg _
+  | succ i =>
+    cases j with
+    | zero => rw [cell_succ_zero m true a b i (by omega)]; exact clamp_true_nonneg _
+    | succ j =>
+      rw [cell_succ_succ m true a b i j (by omega) (by omega)]; exact clamp_true_nonneg _
+
+/-- Local optimality for zero gap-open (no sign condition on gap scores is needed). -/
+theorem local_opt_zero (m : Mat) (a b : Bytes) (h0 : m GAP GAP = 0) (i i' j j' : Nat)
+    (hi : i ≤ i') (hi' : i' ≤ a.length) (hj : j ≤ j') (hj' : j' ≤ b.length)
+    (s : List Step) (v : Int)
+    (h : rescore m .none ((a.drop i).take (i' - i)) ((b.drop j).take (j' - j)) s
+      = some (v, [], [])) : v ≤ (localT m a b).2.2.2 := by
+  have h1 := path_le m true a b h0 i' j' hi' hj' s .none i j v hi hj h
+  have h2 := local_cell_nonneg m a b i j (by omega) (by omega)
+  have h3 := argmax_ge_cell m true a b i' j' hi' hj'
+  rw [localT_score]
+  omega
+
+/-! ## Mirroring an alignment -/
+
+def swapStep : Step → Step
+  | .del => .ins
+  | .ins => .del
+  | s => s
+
+theorem swapStep_del : swapStep .del = .ins := rfl
+theorem swapStep_ins : swapStep .ins = .del := rfl
+theorem swapStep_mch : swapStep .mch = .mch := rfl
+theorem swapStep_none : swapStep .none = .none := rfl
+
+set_option linter.unusedSimpArgs false in
+theorem rescore_swap (m : Mat) (hs : ∀ x y, m x y = m y x) :
+    ∀ (s : List Step) (p : Step) (a b : Bytes),
+      rescore m (swapStep p) b a (s.map swapStep) =
+        (rescore m p a b s).map fun r => (r.1, r.2.2, r.2.1) := by
+  intro s
+  induction s with
+  | nil => intro p a b; simp [rescore_nil]
+  | cons st s ih =>
+    intro p a b
+    cases st with
+    | none => simp [swapStep_del, swapStep_ins, swapStep_mch, swapStep_none, rescore_none_cons]
+    | mch =>
+      cases a with
+      | nil => simp [swapStep_del, swapStep_ins, swapStep_mch, swapStep_none, rescore_mch_nil_left, rescore_mch_nil_right]
+      | cons x a =>
+        cases b with
+        | nil => simp [swapStep_del, swapStep_ins, swapStep_mch, swapStep_none, rescore_mch_nil_left, rescore_mch_nil_right]
+        | cons y b =>
+          have := ih .mch a b
+          simp only [swapStep_del, swapStep_ins, swapStep_mch, List.map_cons, rescore_mch_cons] at this ⊢
+          rw [this, hs y x]
+          simp [Option.map_map, Function.comp_def]
+    | del =>
+      cases a with
+      | nil => simp [swapStep_del, swapStep_ins, swapStep_mch, swapStep_none, rescore_del_nil, rescore_ins_nil]
+      | cons x a =>
+        have := ih .del (a) b
+        simp only [swapStep_del, swapStep_ins, swapStep_mch, List.map_cons, rescore_del_cons, rescore_ins_cons] at this ⊢
+        rw [this, hs GAP x]
+        have : (swapStep p != Step.ins) = (p != Step.del) := by cases p <;> rfl
+        simp [Option.map_map, Function.comp_def, this]
+    | ins =>
+      cases b with
+      | nil => simp [swapStep_del, swapStep_ins, swapStep_mch, swapStep_none, rescore_del_nil, rescore_ins_nil]
+      | cons y b =>
+        have := ih .ins a b
+        simp only [swapStep_del, swapStep_ins, swapStep_mch, List.map_cons, rescore_del_cons, rescore_ins_cons] at this ⊢
+        rw [this, hs y GAP]
+        have : (swapStep p != Step.del) = (p != Step.ins) := by cases p <;> rfl
+        simp [Option.map_map, Function.comp_def, this]
+
+
+theorem swap_le (m : Mat) (a b : Bytes) (hs : ∀ x y, m x y = m y x) (h0 : m GAP GAP = 0)
+    (s : List Step) (v : Int) (h : rescore m .none a b s = some (v, [], [])) :
+    v ≤ (globalT m b a).2 := by
+  refine global_opt_zero m b a h0 (s.map swapStep) v ?_
+  have := rescore_swap m hs s .none a b
+  rw [swapStep_none, h] at this
+  simpa using this
+
+/-! ## With zero gap-open the previous step is irrelevant -/
+
+theorem rescore_prev_irrel (m : Mat) (h0 : m GAP GAP = 0) (p p' : Step) (a b : Bytes)
+    (s : List Step) : rescore m p a b s = rescore m p' a b s := by
+  cases s with
+  | nil => simp [rescore_nil]
+  | cons st s =>
+    cases st with
+    | none => simp [rescore_none_cons]
+    | mch =>
+      cases a with
+      | nil => simp [rescore_mch_nil_left]
+      | cons x a =>
+        cases b with
+        | nil => simp [rescore_mch_nil_right]
+        | cons y b => simp [rescore_mch_cons]
+    | del =>
+      cases a with
+      | nil => simp [rescore_del_nil]
+      | cons x a => simp [rescore_del_cons, h0]
+    | ins =>
+      cases b with
+      | nil => simp [rescore_ins_nil]
+      | cons y b => simp [rescore_ins_cons, h0]
+
+/-! ## Levenshtein -/
+
+/-- The Levenshtein matrix of /repo/align/levenshtein.go: 0 on the diagonal
+(including `(GAP, GAP)`), -1 elsewhere. -/
+def lev : Mat := fun x y => if x = y then 0 else -1
+
+/-- Edit distance, Wagner–Fischer recurrence from the front (unconditional
+three-way minimum). -/
+def ed : Bytes → Bytes → Nat
+  | [], b => b.length
+  | a, [] => a.length
+  | x :: a, y :: b =>
+    min (ed a b + (if x = y then 0 else 1)) (min (ed a (y :: b) + 1) (ed (x :: a) b + 1))
+
+theorem ed_nil_left (b : Bytes) : ed [] b = b.length := by simp [ed]
+
+theorem ed_nil_right (a : Bytes) : ed a [] = a.length := by cases a <;> simp [ed]
+
+theorem ed_cons_cons (x y : UInt8) (a b : Bytes) :
+    ed (x :: a) (y :: b) =
+      min (ed a b + (if x = y then 0 else 1)) (min (ed a (y :: b) + 1) (ed (x :: a) b + 1)) := by
+  simp [ed]
+
+theorem ed_cons_left_le (x : UInt8) (a b : Bytes) : ed (x :: a) b ≤ ed a b + 1 := by
+  cases b with
+  | nil => simp [ed_nil_right]
+  | cons y b => rw [ed_cons_cons]; omega
+
+theorem ed_cons_right_le (y : UInt8) (a b : Bytes) : ed a (y :: b) ≤ ed a b + 1 := by
+  cases a with
+  | nil => simp [ed_nil_left]
+  | cons x a => rw [ed_cons_cons]; omega
+
+theorem lev_gap_gap : lev GAP GAP = 0 := by simp [lev]
+
+theorem lev_gap_right (x : UInt8) (h : x ≠ GAP) : lev x GAP = -1 := by simp [lev, h]
+
+theorem lev_gap_left (y : UInt8) (h : y ≠ GAP) : lev GAP y = -1 := by
+  simp [lev, Ne.symm h]
+
+/-- No alignment of gap-free strings under `lev` beats minus the edit distance. -/
+theorem lev_le_ed : ∀ (s : List Step) (p : Step) (a b : Bytes) (v : Int),
+    GAP ∉ a → GAP ∉ b → rescore lev p a b s = some (v, [], []) → v ≤ -(ed a b : Int) := by
+  intro s
+  induction s with
+  | nil =>
+    intro p a b v _ _ h
+    rw [rescore_nil] at h
+    simp only [Option.some.injEq, Prod.mk.injEq] at h
+    obtain ⟨rfl, rfl, rfl⟩ := h
+    simp [ed]
+  | cons st s ih =>
+    intro p a b v ha hb h
+    cases st with
+    | none => rw [rescore_none_cons] at h; simp at h
+    | mch =>
+      cases a with
+      | nil => rw [rescore_mch_nil_left] at h; simp at h
+      | cons x a =>
+        cases b with
+        | nil => rw [rescore_mch_nil_right] at h; simp at h
+        | cons y b =>
+          rw [rescore_mch_cons] at h
+          simp only [Option.map_eq_some_iff] at h
+          obtain ⟨⟨v', ra, rb⟩, hr, hv⟩ := h
+          simp only [Prod.mk.injEq] at hv
+          obtain ⟨hv, rfl, rfl⟩ := hv
+          have := ih .mch a b v' (by simp at ha; simp [ha]) (by simp at hb; simp [hb]) hr
+          have h1 := ed_cons_cons x y a b
+          simp only [lev] at hv
+          split at hv <;> simp_all <;> omega
+    | del =>
+      cases a with
+      | nil => rw [rescore_del_nil] at h; simp at h
+      | cons x a =>
+        rw [rescore_del_cons] at h
+        simp only [Option.map_eq_some_iff] at h
+        obtain ⟨⟨v', ra, rb⟩, hr, hv⟩ := h
+        simp only [Prod.mk.injEq] at hv
+        obtain ⟨hv, rfl, rfl⟩ := hv
+        have := ih .del a b v' (by simp at ha; simp [ha]) hb hr
+        have h1 := ed_cons_left_le x a b
+        rw [lev_gap_right x (by simp at ha; exact fun h => ha.1 h.symm), lev_gap_gap] at hv
+        simp only [ite_self] at hv
+        omega
+    | ins =>
+      cases b with
+      | nil => rw [rescore_ins_nil] at h; simp at h
+      | cons y b =>
+        rw [rescore_ins_cons] at h
+        simp only [Option.map_eq_some_iff] at h
+        obtain ⟨⟨v', ra, rb⟩, hr, hv⟩ := h
+        simp only [Prod.mk.injEq] at hv
+        obtain ⟨hv, rfl, rfl⟩ := hv
+        have := ih .ins a b v' ha (by simp at hb; simp [hb]) hr
+        have h1 := ed_cons_right_le y a b
+        rw [lev_gap_left y (by simp at hb; exact fun h => hb.1 h.symm), lev_gap_gap] at hv
+        simp only [ite_self] at hv
+        omega
+
+/-- Minus the edit distance is attained by an alignment under `lev`. -/
+theorem lev_attains_ed : ∀ (a b : Bytes), GAP ∉ a → GAP ∉ b →
+    ∃ s, rescore lev .none a b s = some (-(ed a b : Int), [], []) := by
+  intro a
+  induction a with
+  | nil =>
+    intro b
+    induction b with
+    | nil => intro _ _; exact ⟨[], by simp [rescore_nil, ed]⟩
+    | cons y b ihb =>
+      intro ha hb
+      obtain ⟨s, hs⟩ := ihb ha (by simp at hb; simp [hb])
+      refine ⟨.ins :: s, ?_⟩
+      rw [rescore_ins_cons, rescore_prev_irrel lev lev_gap_gap .ins .none, hs,
+        lev_gap_left y (by simp at hb; exact fun h => hb.1 h.symm), lev_gap_gap]
+      simp [ed_nil_left]; omega
+  | cons x a iha =>
+    intro b
+    induction b with
+    | nil =>
+      intro ha hb
+      obtain ⟨s, hs⟩ := iha [] (by simp at ha; simp [ha]) hb
+      refine ⟨.del :: s, ?_⟩
+      rw [rescore_del_cons, rescore_prev_irrel lev lev_gap_gap .del .none, hs,
+        lev_gap_right x (by simp at ha; exact fun h => ha.1 h.symm), lev_gap_gap]
+      simp [ed_nil_right]; omega
+    | cons y b ihb =>
+      intro ha hb
+      have ha' : GAP ∉ a := by simp at ha; simp [ha]
+      have hb' : GAP ∉ b := by simp at hb; simp [hb]
+      have hx : x ≠ GAP := by simp at ha; exact fun h => ha.1 h.symm
+      have hy : y ≠ GAP := by simp at hb; exact fun h => hb.1 h.symm
+      have hE := ed_cons_cons x y a b
+      have hcases : ed (x :: a) (y :: b) = ed a b + (if x = y then 0 else 1) ∨
+          ed (x :: a) (y :: b) = ed a (y :: b) + 1 ∨
+          ed (x :: a) (y :: b) = ed (x :: a) b + 1 := by omega
+      rcases hcases with h | h | h
+      · obtain ⟨s, hs⟩ := iha b ha' hb'
+        refine ⟨.mch :: s, ?_⟩
+        rw [rescore_mch_cons, rescore_prev_irrel lev lev_gap_gap .mch .none, hs, h]
+        simp only [lev, Option.map_some]
+        split <;> simp <;> omega
+      · obtain ⟨s, hs⟩ := iha (y :: b) ha' hb
+        refine ⟨.del :: s, ?_⟩
+        rw [rescore_del_cons, rescore_prev_irrel lev lev_gap_gap .del .none, hs, h,
+          lev_gap_right x hx, lev_gap_gap]
+        simp; omega
+      · obtain ⟨s, hs⟩ := ihb ha hb'
+        refine ⟨.ins :: s, ?_⟩
+        rw [rescore_ins_cons, rescore_prev_irrel lev lev_gap_gap .ins .none, hs, h,
+          lev_gap_left y hy, lev_gap_gap]
+        simp; omega
+
+
+/-! ## Cutting the unconsumed remainders off an alignment -/
+
+theorem rescore_unframe (m : Mat) : ∀ (s : List Step) (p : Step) (X Y : Bytes) (v : Int)
+    (ra rb : Bytes), rescore m p X Y s = some (v, ra, rb) →
+    ∃ A B, X = A ++ ra ∧ Y = B ++ rb ∧ rescore m p A B s = some (v, [], []) := by
+  intro s
+  induction s with
+  | nil =>
+    intro p X Y v ra rb h
+    rw [rescore_nil] at h
+    simp only [Option.some.injEq, Prod.mk.injEq] at h
+    obtain ⟨rfl, rfl, rfl⟩ := h
+    exact ⟨[], [], rfl, rfl, by simp [rescore_nil]⟩
+  | cons st s ih =>
+    intro p X Y v ra rb h
+    cases st with
+    | none => rw [rescore_none_cons] at h; simp at h
+    | mch =>
+      cases X with
+      | nil => rw [rescore_mch_nil_left] at h; simp at h
+      | cons x X =>
+        cases Y with
+        | nil => rw [rescore_mch_nil_right] at h; simp at h
+        | cons y Y =>
+          rw [rescore_mch_cons] at h
+          simp only [Option.map_eq_some_iff] at h
+          obtain ⟨⟨v', ra', rb'⟩, hr, hv⟩ := h
+          simp only [Prod.mk.injEq] at hv
+          obtain ⟨hv, rfl, rfl⟩ := hv
+          obtain ⟨A, B, rfl, rfl, hAB⟩ := ih .mch X Y v' _ _ hr
+          exact ⟨x :: A, y :: B, rfl, rfl, by rw [rescore_mch_cons, hAB]; simp [hv]⟩
+    | del =>
+      cases X with
+      | nil => rw [rescore_del_nil] at h; simp at h
+      | cons x X =>
+        rw [rescore_del_cons] at h
+        simp only [Option.map_eq_some_iff] at h
+        obtain ⟨⟨v', ra', rb'⟩, hr, hv⟩ := h
+        simp only [Prod.mk.injEq] at hv
+        obtain ⟨hv, rfl, rfl⟩ := hv
+        obtain ⟨A, B, rfl, rfl, hAB⟩ := ih .del X Y v' _ _ hr
+        exact ⟨x :: A, B, rfl, rfl, by rw [rescore_del_cons, hAB]; simpa using hv⟩
+    | ins =>
+      cases Y with
+      | nil => rw [rescore_ins_nil] at h; simp at h
+      | cons y Y =>
+        rw [rescore_ins_cons] at h
+        simp only [Option.map_eq_some_iff] at h
+        obtain ⟨⟨v', ra', rb'⟩, hr, hv⟩ := h
+        simp only [Prod.mk.injEq] at hv
+        obtain ⟨hv, rfl, rfl⟩ := hv
+        obtain ⟨A, B, rfl, rfl, hAB⟩ := ih .ins X Y v' _ _ hr
+        exact ⟨A, y :: B, rfl, rfl, by rw [rescore_ins_cons, hAB]; simpa using hv⟩
+
+theorem seg_of_drop_eq (a A : Bytes) (i i' : Nat) (h : i ≤ i') (h' : i' ≤ a.length)
+    (hA : a.drop i = A ++ a.drop i') : (a.drop i).take (i' - i) = A := by
+  have hl := congrArg List.length hA
+  simp only [List.length_drop, List.length_append] at hl
+  have : i' - i = A.length := by omega
+  rw [this, hA, List.take_left]
+
+/-- An alignment that starts at offsets `(i, j)` and leaves `a.drop i'`,
+`b.drop j'` is an alignment of the segments `a[i..i')`, `b[j..j')`. -/
+theorem rescore_segment (m : Mat) (a b : Bytes) (i i' j j' : Nat) (hi : i ≤ i')
+    (hi' : i' ≤ a.length) (hj : j ≤ j') (hj' : j' ≤ b.length) (s : List Step) (p : Step) (v : Int)
+    (h : rescore m p (a.drop i) (b.drop j) s = some (v, a.drop i', b.drop j')) :
+    rescore m p ((a.drop i).take (i' - i)) ((b.drop j).take (j' - j)) s = some (v, [], []) := by
+  obtain ⟨A, B, hA, hB, hAB⟩ := rescore_unframe m s p _ _ v _ _ h
+  rw [seg_of_drop_eq a A i i' hi hi' hA, seg_of_drop_eq b B j j' hj hj' hB]
+  exact hAB
+
+end Bio.Align.Opt
